@@ -60,7 +60,7 @@ func periodMap(cmd []string, out string) (map[string][]*big.Rat, error) {
 }
 
 func runC12(c *core.Ctx) {
-	c.SetRule("histories: 2-8 day blocks over one shared book (repeated dates, empty days, days that are permutations of one another, dates in any order), every split point i; per-day reports (reg in three renderers, reg --totals-only, csv log, print, reg -f P, reg -s X) must satisfy out(B1..Bk) == out(B1..Bi) ++ out(Bi+1..Bk) byte for byte; period reports (bal, bal -c, bal -s X, report totals, report quantity) must be the element-wise sum of the parts (exact pool: exact; general pool: 3 half-units). Prefix, suffix and whole run back to back in one server process, so state leaking across invocations would show too. Non-trivial = history with >= 3 blocks; distinct = hash(files, split).")
+	c.SetRule("histories: 2-8 day blocks over one shared book (repeated dates, empty days, days that are permutations of one another, dates in any order), every split point i, a third of them additionally under a -b/-e period; per-day reports (reg in three renderers, reg --totals-only, csv log, print, reg -f P, reg -s X) must satisfy out(B1..Bk) == out(B1..Bi) ++ out(Bi+1..Bk) byte for byte; period reports (bal, bal -c, bal -s X, report totals, report quantity) must be the element-wise sum of the parts (exact pool: exact; general pool: 3 half-units). Prefix, suffix and whole run back to back in one server process, so state leaking across invocations would show too. Non-trivial = history with >= 3 blocks; distinct = hash(files, split).")
 	pool := newPool(c, c.Procs)
 	if pool == nil {
 		return
@@ -101,8 +101,22 @@ func runC12(c *core.Ctx) {
 			if k >= 3 {
 				c.Nontrivial(w.BookText, files["whole.yaml"], fmt.Sprint(s))
 			}
+			// a third of the histories are composed under a period as well (same flags on whole and parts)
+			var periodFlags []string
+			if i%3 == 0 {
+				bd, ed := w.Log[r.Intn(k)].Date, w.Log[r.Intn(k)].Date
+				switch r.Intn(3) {
+				case 0:
+					periodFlags = []string{"-e", ed.Format(w.Layout)}
+				case 1:
+					periodFlags = []string{"-b", bd.Format(w.Layout)}
+				default:
+					periodFlags = []string{"-b", bd.Format(w.Layout), "-e", ed.Format(w.Layout)}
+				}
+				c.Count("compositions_under_a_period", 1)
+			}
 			runOn := func(logf string, cmd []string) run.Result {
-				args := []string{"--no-color", "-d", "food.yaml", "-l", logf}
+				args := append([]string{"--no-color", "-d", "food.yaml", "-l", logf}, periodFlags...)
 				for _, a := range cmd {
 					switch a {
 					case "X":
